@@ -248,8 +248,12 @@ type enum struct {
 	visit   func(*Path)
 	stats   Stats
 	headers map[*ssa.BasicBlock]bool
-	start   *ssa.BasicBlock
-	err     error
+	// loop headers inside callees expanded in place, with the frames (call
+	// chain and return continuations) they were first reached under
+	inlHeaders map[*ssa.BasicBlock]*frame
+	inlOrder   []*ssa.BasicBlock
+	start      *ssa.BasicBlock
+	err        error
 }
 
 // Enumerate explores fn and calls visit for every feasible segment.
@@ -260,7 +264,7 @@ func Enumerate(fn *ssa.Function, cfg Config, visit func(*Path)) (Stats, error) {
 	if cfg.MaxPaths == 0 {
 		cfg.MaxPaths = 200000
 	}
-	en := &enum{cfg: cfg, top: fn, visit: visit, headers: map[*ssa.BasicBlock]bool{}}
+	en := &enum{cfg: cfg, top: fn, visit: visit, headers: map[*ssa.BasicBlock]bool{}, inlHeaders: map[*ssa.BasicBlock]*frame{}}
 	done := map[*ssa.BasicBlock]bool{}
 	queue := []*ssa.BasicBlock{fn.Blocks[0]}
 	for len(queue) > 0 && en.err == nil {
@@ -300,7 +304,34 @@ func Enumerate(fn *ssa.Function, cfg Config, visit func(*Path)) (Stats, error) {
 		sort.Slice(hs, func(i, j int) bool { return hs[i].Index < hs[j].Index })
 		queue = append(queue, hs...)
 	}
-	en.stats.Headers = len(en.headers)
+	// segments that start at loop headers of expanded callees
+	doneInl := map[*ssa.BasicBlock]bool{}
+	for i := 0; i < len(en.inlOrder) && en.err == nil && !cfg.EntryOnly; i++ {
+		b := en.inlOrder[i]
+		if doneInl[b] {
+			continue
+		}
+		doneInl[b] = true
+		en.start = b
+		st := &state{phi: map[*ssa.Phi]ssa.Value{}, mem: map[ssa.Value]ssa.Value{}, bind: map[ssa.Value]ssa.Value{}, facts: map[ssa.Value]*fact{}, loads: map[string]ssa.Value{}, lens: map[string]ssa.Value{}}
+		fr := en.inlHeaders[b].clone()
+		fr.seen = map[*ssa.BasicBlock]bool{} // the callee's own frame starts afresh at the header
+		// defers the callee registered unconditionally before the loop
+		fr.defers = nil
+		for _, d := range b.Parent().DomPreorder() {
+			if d == b || !d.Dominates(b) {
+				continue
+			}
+			for _, ins := range d.Instrs {
+				if df, ok := ins.(*ssa.Defer); ok {
+					fr.defers = append(fr.defers, df)
+				}
+			}
+		}
+		st.fr = fr
+		en.block(st, b, nil)
+	}
+	en.stats.Headers = len(en.headers) + len(en.inlHeaders)
 	return en.stats, en.err
 }
 
@@ -325,9 +356,15 @@ func (en *enum) block(st *state, b *ssa.BasicBlock, pred *ssa.BasicBlock) {
 	if fr.seen[b] {
 		// back edge
 		if fr.parent != nil {
-			// callees are traversed acyclically: the iteration is dropped, the
-			// loop exit is reached on the path that skips the body
-			en.stats.Pruned++
+			// a loop inside a callee expanded in place: the segment ends here, and
+			// the loop header starts segments of its own under the same call chain
+			// (no facts, like every segment that starts at a loop header)
+			if _, known := en.inlHeaders[b]; !known {
+				en.inlHeaders[b] = fr.clone()
+				en.inlOrder = append(en.inlOrder, b)
+			}
+			st.events = append(st.events, Event{Kind: KLoopBack, Fn: fr.fn, Target: b, Depth: fr.depth})
+			en.finish(st, KLoopBack)
 			return
 		}
 		en.headers[b] = true
